@@ -146,6 +146,7 @@ PROPS = {
             plain("c19", "TestReplayRegressions"),
             plain("c19", "TestReplayPermutations"),
             rapid("c19", "TestPropAndLaw", quick=(12000, 4), thorough=(150000, 10)),
+            rapid("c19", "TestPropAndChains", quick=(6000, 2), thorough=(80000, 4)),
             rapid("c19", "TestPropSearchPermutations", quick=(1200, 4), thorough=(20000, 6)),
             plain("c19", "TestReplayBackend"),
             rapid("c19", "TestPropSearchBackend", quick=(1200, 3), thorough=(20000, 6)),
